@@ -37,7 +37,9 @@ RULE = ("a real TransitSender/TransitReceiver with 0-1 listener, 0-3 direct and 
         "peers are honest / stranger / wrong-key / reflected / partial / one-byte-off / relay-refused, bytes delivered in "
         "random chunks in random interleavings chosen against the live state, connection losses, connect failures and "
         "clock advances up to and beyond the per-connection timeout and the connect() deadline; thorough adds every "
-        "interleaving of 3 connections x 3 progress points; non-trivial = at least one connection finished its handshake "
+        "interleaving of 3 connections x 3 progress points; two-sided runs: a real TransitSender and a real TransitReceiver "
+        "with the same key whose connections are joined by links (direct either way, via relay, racing links) that pipe "
+        "the written bytes in order in random pieces, plus strangers on unlinked connections, with the same_link oracle; non-trivial = at least one connection finished its handshake "
         "or was rejected; distinct = distinct canonical traces")
 
 KEY = bytes(range(32))
@@ -380,6 +382,8 @@ def op_line(op):
 
 
 def run_case(case):
+    if case.get("duo"):
+        return run_duo(case)
     w = World(case["cfg"])
     lines, exp = [new_line(w)], ["ok"]
     tags = ["role:" + case["cfg"]["role"], "gen:" + case.get("gen", "?")]
@@ -699,16 +703,284 @@ def exhaustive(rng, nconn, npts, max_cases=None):
     return out
 
 
+# ---------------------------------------------------------------------------------------------
+# two sides: a real TransitSender and a real TransitReceiver (same key) whose connections are joined by links
+
+class DuoWorld:
+    """Sender world + Receiver world + links.  A link pipes, in order and in the pieces the case asks for, what
+    one end's transport was given to write into the other end's dataReceived (through a relay: `ok\\n` first,
+    the request line withheld).  Connections that are not an end of a link belong to strangers."""
+
+    def __init__(self, cfg):
+        self.cfg = cfg
+        self.S = World(dict(role="S", listener=cfg["lS"], directs=cfg["dS"], relays=cfg["rS"]))
+        self.R = World(dict(role="R", listener=cfg["lR"], directs=cfg["dR"], relays=cfg["rR"]))
+        self.links = []          # (sIdx, rIdx, relay)
+        self.viol = []
+
+    def new_line(self):
+        c = self.cfg
+        rel = lambda l: ",".join(str(p) for p in l) or "-"
+        return (f"duo {1 if c['lS'] else 0} {c['dS']} {rel(c['rS'])} {1 if c['lR'] else 0} {c['dR']} {rel(c['rR'])} "
+                f"{hx(self.S.send_this)} {hx(self.S.expect_this)} {hx(self.S.relay_hs)} {hx(self.R.relay_hs)}")
+
+    def linked(self, side, i):
+        return any((l[0] if side == "S" else l[1]) == i for l in self.links)
+
+    def stream(self, src, relay):
+        w = src["tr"].written
+        return (b"ok\n" + b"".join(w[1:])) if relay else b"".join(w)
+
+    @staticmethod
+    def _split(r):
+        if r.startswith("raised="):
+            head, rest = r.split(" ", 1)
+            return head + " ", rest
+        return "", r
+
+    def summary(self):
+        ls = " ".join(f"{a}-{b}{'y' if y else ''}" for a, b, y in self.links)
+        return f"{self.S.summary()} || {self.R.summary()} || {ls}"
+
+    def _can_connect(self, W, k, want_relay):
+        lab = W.labels[k] if k < len(W.labels) else None
+        ep = W.eps.get(lab)
+        return (ep is not None and ep.d is not None and not ep.d.called and lab.startswith("r") == want_relay)
+
+    def op(self, op):
+        k = op[0]
+        raised = ""
+        if k in ("S", "R"):
+            W = self.S if k == "S" else self.R
+            sub = list(op[1:])
+            if sub[0] == "data" and self.linked(k, sub[1]):
+                return None
+            r = W.op(sub)
+            if r is None:
+                return None
+            raised, _ = self._split(r)
+        elif k == "link":
+            how = op[1]
+            if how == "s":
+                if not (self.S.port_open() and self._can_connect(self.R, op[2], False)):
+                    return None
+                a, b = len(self.S.conns), len(self.R.conns)
+                self.S.op(["inbound"]); self.R.op(["connected", op[2]])
+                self.links.append((a, b, False))
+            elif how == "r":
+                if not (self.R.port_open() and self._can_connect(self.S, op[2], False)):
+                    return None
+                a, b = len(self.S.conns), len(self.R.conns)
+                self.S.op(["connected", op[2]]); self.R.op(["inbound"])
+                self.links.append((a, b, False))
+            else:
+                if not (self._can_connect(self.S, op[2], True) and self._can_connect(self.R, op[3], True)):
+                    return None
+                a, b = len(self.S.conns), len(self.R.conns)
+                self.S.op(["connected", op[2]]); self.R.op(["connected", op[3]])
+                self.links.append((a, b, True))
+        elif k == "fwd":
+            l, n = op[2], op[3]
+            if l >= len(self.links):
+                return None
+            a, b, relay = self.links[l]
+            if op[1] == "SR":
+                src, dst, W, di = self.S.conns[a], self.R.conns[b], self.R, b
+            else:
+                src, dst, W, di = self.R.conns[b], self.S.conns[a], self.S, a
+            chunk = self.stream(src, relay)[len(dst["rx"]):][:n]
+            if not chunk or dst["tr"].lost or dst["gone"]:
+                return None
+            r = W.op(["data", di, hx(chunk)])
+            raised, _ = self._split(r)
+        else:
+            raise ValueError(op)
+        self.check()
+        return raised + self.summary()
+
+    def check(self):
+        """same_link, on the real objects"""
+        v = self.viol
+        S, R = self.S, self.R
+        rs = S.result.res if S.result else "pending"
+        rr = R.result.res if R.result else "pending"
+        s_ok = rs != "pending" and rs[0] == "ok"
+        r_ok = rr != "pending" and rr[0] == "ok"
+        # whoever the Receiver uses is the peer end of the connection the Sender said go on
+        for j, c in enumerate(R.conns):
+            if c["obs"].res != "pending" and c["obs"].res[0] == "ok":
+                ends = [l for l in self.links if l[1] == j]
+                if not ends:
+                    v.append(("receiver-selected-stranger", f"R conn {j} negotiated but is not an end of any link"))
+                elif GO not in S.conns[ends[0][0]]["tr"].written:
+                    v.append(("receiver-selected-without-go", f"R conn {j} negotiated but the Sender never wrote go on "
+                                                             f"its end (S conn {ends[0][0]})"))
+        for i, c in enumerate(S.conns):
+            if c["obs"].res != "pending" and c["obs"].res[0] == "ok" and not self.linked("S", i):
+                v.append(("sender-selected-stranger", f"S conn {i} negotiated but is not an end of any link"))
+        if s_ok and r_ok:
+            a, b = S.idx(rs[1]), R.idx(rr[1])
+            if (a, b) not in [(l[0], l[1]) for l in self.links]:
+                v.append(("not-same-link", f"Sender's connect() returned its conn {a}, Receiver's its conn {b}: "
+                                           f"not the two ends of one link (links: {self.links})"))
+            else:
+                if GO not in S.conns[a]["tr"].written:
+                    v.append(("same-link-without-go", f"link {a}-{b}: the Sender did not write go on it"))
+                pre = b"ok\n" if R.conns[b]["relay"] else b""
+                if not R.conns[b]["rx"].startswith(pre + S.send_this + GO):
+                    v.append(("same-link-without-handshake", f"link {a}-{b}: the Receiver saw {R.conns[b]['rx'][:50]!r}"))
+            for W, w, nm in ((S, a, "S"), (R, b, "R")):
+                for i, c in enumerate(W.conns):
+                    if i != w and not c["tr"].lost and not c["gone"]:
+                        v.append(("other-end-open", f"both results are out but {nm} conn {i} is still open "
+                                                    f"(state={c['p'].state})"))
+
+
+def run_duo(case):
+    w = DuoWorld(case["cfg"])
+    lines, exp = [w.new_line()], ["ok"]
+    tags = ["duo", "gen:" + case.get("gen", "?")]
+    for op in case["ops"]:
+        r = w.op(op)
+        lines.append(op_line(op))
+        exp.append("skip" if r is None else r)
+        if r is None:
+            tags.append("skip:" + "-".join(str(x) for x in op[:2]))
+    viol, seen = [], set()
+    for s_, m in w.viol + [(a, "S: " + b) for a, b in w.S.viol] + [(a, "R: " + b) for a, b in w.R.viol]:
+        if s_ not in seen:
+            seen.add(s_)
+            viol.append((s_, m))
+    rs = w.S.show_res(w.S.result.res) if w.S.result else "not-started"
+    rr = w.R.show_res(w.R.result.res) if w.R.result else "not-started"
+    tags.append("duo-results:" + rs.split(":")[0] + "/" + rr.split(":")[0])
+    tags.append(f"duo-links:{len(w.links)}")
+    if any(l[2] for l in w.links):
+        tags.append("duo-relay-link")
+    nontrivial = bool(w.links) or any(c["p"].state in ("records", "hung up") for c in w.S.conns + w.R.conns)
+    return Result(lines, exp, viol, tags, nontrivial)
+
+
+def gen_duo(rng, big=False):
+    """a two-sided schedule chosen against the live real objects"""
+    cfg = dict(lS=rng.random() < 0.7, dS=rng.choice([0, 1, 1, 2]), rS=[rng.choice([0, 0, 1]) for _ in range(rng.choice([0, 1, 1]))],
+               lR=rng.random() < 0.6, dR=rng.choice([0, 1, 1, 2]), rR=[rng.choice([0, 0, 1]) for _ in range(rng.choice([0, 1, 1]))])
+    if not cfg["lS"] and not cfg["lR"] and not (cfg["rS"] and cfg["rR"]):
+        cfg["lS"] = True
+        cfg["dR"] = max(cfg["dR"], 1)
+    w = DuoWorld(cfg)
+    ops = []
+
+    def do(op):
+        r = w.op(op)
+        ops.append(op)
+        return r
+    for side in rng.sample(["S", "R"], 2):
+        if rng.random() < 0.85:
+            do([side, "connect"])
+    stranger = {}
+    for step in range(rng.randrange(6, 45 if not big else 90)):
+        ch = []
+        for side, W in (("S", w.S), ("R", w.R)):
+            if not W.started:
+                ch += [[side, "connect"]] * 2
+            if W.port_open() and len(W.conns) < 4:
+                ch += [[side, "inbound"]]
+            for k, lab in enumerate(W.labels):
+                ep = W.eps.get(lab)
+                if ep is not None and ep.d is not None and not ep.d.called:
+                    ch += [[side, "connfail", k]]
+                    if len(W.conns) < 4:
+                        ch += [[side, "connected", k]]      # a stranger answers
+            for i, c in enumerate(W.conns):
+                if not c["gone"]:
+                    ch += [[side, "lost", i]] * (2 if c["tr"].lost else 1)
+                if not w.linked(side, i) and not c["tr"].lost and not c["gone"]:
+                    key = (side, i)
+                    if key not in stranger:
+                        kind = rng.choice(["stranger", "wrongkey", "reflected", "partial", "offbyone", "silent"])
+                        scr = peer_script(rng, W, c["relay"], kind, GO if side == "R" else b"")
+                        full = (b"ok\n" if c["relay"] else b"") + W.expect_this
+                        if scr.startswith(full):      # a stranger cannot produce the handshake
+                            scr = scr[:len(full) - 1]
+                        stranger[key] = chunk(rng, scr, "rand")
+                    if stranger[key]:
+                        ch += [[side, "data", i, None]] * 2
+            ch += [[side, "advance", rng.choice([0, 1, 2, 2, 30, 60, 61, 120])]]
+        # links that can be made now
+        for k in range(len(w.R.labels)):
+            if w.S.port_open() and w._can_connect(w.R, k, False):
+                ch += [["link", "s", k]] * 5
+        for k in range(len(w.S.labels)):
+            if w.R.port_open() and w._can_connect(w.S, k, False):
+                ch += [["link", "r", k]] * 5
+        for ks in range(len(w.S.labels)):
+            for kr in range(len(w.R.labels)):
+                if w._can_connect(w.S, ks, True) and w._can_connect(w.R, kr, True):
+                    ch += [["link", "y", ks, kr]] * 5
+        for l, (a, b, relay) in enumerate(w.links):
+            for d, src, dst in (("SR", w.S.conns[a], w.R.conns[b]), ("RS", w.R.conns[b], w.S.conns[a])):
+                if len(w.stream(src, relay)) > len(dst["rx"]) and not dst["tr"].lost and not dst["gone"]:
+                    ch += [["fwd", d, l, rng.choice([1, 2, 3, 5, 40, 86, 87, 88, 200])]] * 8
+        if not ch:
+            break
+        op = list(rng.choice(ch))
+        if op[1] == "data":
+            op[3] = hx(stranger[(op[0], op[2])].pop(0))
+        do(op)
+    if rng.random() < 0.5:
+        for side, W in (("S", w.S), ("R", w.R)):
+            if not W.started:
+                do([side, "connect"])
+            for i, c in enumerate(W.conns):
+                if c["tr"].lost and not c["gone"]:
+                    do([side, "lost", i])
+            do([side, "advance", 120])
+    return dict(duo=True, cfg=cfg, ops=ops, gen="duo-live")
+
+
+def corpus_duo():
+    out = []
+
+    def c(cfg, ops, name):
+        base = dict(lS=False, dS=0, rS=[], lR=False, dR=0, rR=[])
+        base.update(cfg)
+        out.append(dict(duo=True, cfg=base, ops=ops, gen="duo:" + name))
+    both = [["S", "connect"], ["R", "connect"]]
+    c(dict(lS=True, dR=1), both + [["link", "s", 0], ["fwd", "RS", 0, 200], ["fwd", "SR", 0, 200]], "s-listens")
+    c(dict(lR=True, dS=1), both + [["link", "r", 0], ["fwd", "SR", 0, 5], ["fwd", "RS", 0, 200], ["fwd", "SR", 0, 80], ["fwd", "SR", 0, 200]], "r-listens")
+    c(dict(rS=[0], rR=[0]), both + [["S", "advance", 0], ["R", "advance", 0], ["link", "y", 0, 0], ["fwd", "RS", 0, 3], ["fwd", "SR", 0, 3],
+                                   ["fwd", "RS", 0, 200], ["fwd", "SR", 0, 200]], "relay")
+    # two links race: S listens and dials, R listens and dials; the Sender decides
+    c(dict(lS=True, dS=1, lR=True, dR=1),
+      both + [["link", "s", 1], ["link", "r", 1], ["fwd", "RS", 0, 200], ["fwd", "RS", 1, 200], ["fwd", "SR", 1, 200],
+              ["fwd", "SR", 0, 200], ["S", "lost", 1], ["R", "lost", 1]], "race-two-links")
+    c(dict(lS=True, dS=1, lR=True, dR=1),
+      both + [["link", "s", 1], ["link", "r", 1], ["fwd", "RS", 1, 200], ["fwd", "RS", 0, 200], ["fwd", "SR", 0, 200],
+              ["fwd", "SR", 1, 200]], "race-two-links-other-order")
+    # a stranger at the Sender's port, a stranger answering the Receiver's dial, then the real link
+    c(dict(lS=True, dR=2),
+      both + [["S", "inbound"], ["S", "data", 0, hx(b"GET / HTTP/1.0\r\n\r\n")], ["R", "connected", 0], ["R", "data", 0, hx(b"transit sender 00 ready\n\ngo\n")],
+              ["link", "s", 1], ["fwd", "RS", 0, 200], ["fwd", "SR", 0, 200]], "strangers-then-link")
+    # the Receiver is late: the Sender's deadline passes first
+    c(dict(lS=True, dR=1), [["S", "connect"], ["S", "advance", 120], ["R", "connect"], ["link", "s", 0], ["R", "connfail", 0]], "late-receiver")
+    # the link is cut before go arrives
+    c(dict(lS=True, dR=1), both + [["link", "s", 0], ["fwd", "RS", 0, 200], ["R", "lost", 0], ["R", "advance", 120]], "cut-before-go")
+    return out
+
+
 def cases(rng, tier):
     out = corpus()
     if tier == "quick":
         out += exhaustive(rng, 2, 3)
         out += exhaustive(rng, 3, 2, max_cases=30)
         out += [gen_case(rng) for _ in range(350)]
+        out += corpus_duo() + [gen_duo(rng) for _ in range(150)]
     else:
         out += exhaustive(rng, 2, 3)
         out += exhaustive(rng, 3, 3)
         out += [gen_case(rng, big=(j % 4 == 0)) for j in range(9000)]
+        out += corpus_duo() + [gen_duo(rng, big=(j % 4 == 0)) for j in range(4000)]
     return out
 
 
@@ -716,17 +988,18 @@ def search(rng, seconds, seeds):
     t0 = time.time()
     for c in seeds:
         yield c, run_case(c)
-    for c in corpus() + exhaustive(rng, 2, 3):
+    for c in corpus() + corpus_duo() + exhaustive(rng, 2, 3):
         yield c, run_case(c)
     while time.time() - t0 < seconds:
-        c = gen_case(rng, big=True)
+        c = gen_case(rng, big=True) if rng.random() < 0.6 else gen_duo(rng, big=True)
         yield c, run_case(c)
 
 
 def shrink(case):
     ops = case["ops"]
     for i in reversed(range(len(ops))):
-        if ops[i][0] in ("inbound", "connected"):
+        if ops[i][0] in ("inbound", "connected", "link") or (case.get("duo") and len(ops[i]) > 1
+                                                              and ops[i][1] in ("inbound", "connected")):
             continue          # would renumber the connections
         c = dict(case)
         c["ops"] = ops[:i] + ops[i + 1:]
